@@ -394,6 +394,11 @@ func c09ReadBack(rec *kit.Rec, mode string, paths []string, repos []*kit.Repo) {
 	for k := range got {
 		rec.Violation("unexpected document/"+mode, trunc(strings.ReplaceAll(k, "\x00", ":"), 120), wit(nil))
 	}
+	// the search structures written next to the content (postings, rune-offset samples,
+	// file boundaries) must point into the content that is read back: a literal cut out
+	// of a document around its 100th / 200th rune and near its end is found in that
+	// document at that byte offset
+	c09Probe(rec, mode, paths, repos, wit)
 	// repository metadata
 	byName := map[string][]*zoekt.RepoListEntry{}
 	for _, e := range listed {
@@ -511,4 +516,79 @@ func rankIfSet(want, got *zoekt.Repository) uint16 {
 		return 0
 	}
 	return got.Rank
+}
+
+// c09Probe: for up to four valid-UTF-8, indexed documents of at least 20 runes, search
+// a case-sensitive literal of 5 runes taken at rune offsets around the sampling points
+// and expect a match range at exactly that byte offset in that document.
+func c09Probe(rec *kit.Rec, mode string, paths []string, repos []*kit.Repo, wit func(map[string]any) map[string]any) {
+	type probe struct {
+		r   *kit.Repo
+		d   *kit.Doc
+		off int // byte offset of the literal
+		lit string
+	}
+	var probes []probe
+	for _, r := range repos {
+		if r.Tombstone {
+			continue
+		}
+		for _, d := range r.Docs {
+			if d.Skip != "" || !r.Live(d) || !utf8.ValidString(d.Content) || len(probes) >= 12 {
+				continue
+			}
+			rs := []rune(d.Content)
+			if len(rs) < 20 {
+				continue
+			}
+			for _, at := range []int{len(rs) - 5, 96, 99, 100, 101, 198, 200, 301} {
+				if at < 0 || at+5 > len(rs) {
+					continue
+				}
+				lit := string(rs[at : at+5])
+				if strings.ContainsAny(lit, "\n\x00") {
+					continue
+				}
+				probes = append(probes, probe{r, d, len(string(rs[:at])), lit})
+			}
+		}
+	}
+	for _, pr := range probes {
+		found := false
+		for _, p := range paths {
+			s, err := ix.Open(p)
+			if err != nil {
+				continue
+			}
+			kit.Guard(func() {
+				sr, err := s.Search(context.Background(), &query.Substring{Pattern: pr.lit, CaseSensitive: true, Content: true}, &zoekt.SearchOptions{ChunkMatches: true, Whole: true})
+				if err != nil {
+					return
+				}
+				for _, f := range sr.Files {
+					if f.Repository != pr.r.Name || f.FileName != pr.d.Name || string(f.Content) != pr.d.Text() {
+						continue
+					}
+					for _, cm := range f.ChunkMatches {
+						for _, rg := range cm.Ranges {
+							// exactly there, or (self-overlapping text such as a run of one
+							// letter: occurrences are reported non-overlapping from the left) an
+							// occurrence of the same length that overlaps it
+							st, en := int(rg.Start.ByteOffset), int(rg.End.ByteOffset)
+							if en-st == len(pr.lit) && st > pr.off-len(pr.lit) && st < pr.off+len(pr.lit) && string(f.Content[st:en]) == pr.lit {
+								found = true
+							}
+						}
+					}
+				}
+			})
+			s.Close()
+		}
+		rec.Count("content_probes", 1)
+		if !found {
+			rec.Violation("written search structures do not point into the content/"+mode,
+				fmt.Sprintf("%s:%s literal %q at byte %d (rune %d) is not found there", pr.r.Name, pr.d.Name, pr.lit, pr.off, utf8.RuneCountInString(pr.d.Content[:pr.off])), wit(nil))
+			return
+		}
+	}
 }
